@@ -29,7 +29,6 @@ def register(PROPS, CLASSIFIERS, REPLAY_RUNNERS):
         "q_checks": [_lazy("c12", "c12_cut_points"), _lazy("c12", "c12_rejects"), _lazy("c12", "c12_directed")],
         "lake_targets": ["driver_snap"], "thorough_scale": 8,
     }
-    CLASSIFIERS["from_snapshot-shape-validation"] = _call("c12", "classify_shape_validation")
 
     # ------------------------------------------------------------------ C14 lifecycle / C04 ordering
     def _c14_replay(case, obs, flavor):
